@@ -226,10 +226,55 @@ theorem inRun_effAdd (H : List Op) (o : Op) : inRun (H ++ effAdd o) = inRun H :=
   cases o <;> simp [regOf, inRun_snoc]
   split <;> simp [inRun_snoc]
 
-/-- what `add_rule` does before it starts the new sink -/
-structure RegOut (hb ff : Bool) (H : List Op) (s : State) (o : Op) : Prop where
-  inv : Inv hb ff (H ++ effAdd o) (regStep s o).1
-  started : (regStep s o).2.1 = if s.inRun then flaggedSink o else none
+/-! ### an operation as it enters the history -/
+theorem flaggedSink_clearFlag (o : Op) : flaggedSink (clearFlag o) = none := by
+  cases o with
+  | addPrefix sink p c f => by_cases hp : '/' ∈ p <;> simp [clearFlag, flaggedSink, regOf, hp]
+  | addId sink t f => simp [clearFlag, flaggedSink, regOf]
+  | _ => simp [clearFlag, flaggedSink, regOf]
+
+theorem entered_of_none (hb ff : Bool) (h : List Op) (o : Op) (hf : flaggedSink o = none) : entered hb ff h o = o := by
+  simp [entered, hf]
+
+theorem entered_of_mem (hb ff : Bool) (h : List Op) (o : Op) (y : Nat) (hf : flaggedSink o = some y)
+    (hc : (flagged hb ff (regs h)).contains y = true) : entered hb ff h o = clearFlag o := by
+  simp only [entered, hf, hc, if_true]
+
+theorem entered_of_not_mem (hb ff : Bool) (h : List Op) (o : Op) (y : Nat) (hf : flaggedSink o = some y)
+    (hc : (flagged hb ff (regs h)).contains y = false) : entered hb ff h o = o := by
+  simp only [entered, hf, hc]; rfl
+
+theorem regOf_entered_none (hb ff : Bool) (h : List Op) (o : Op) (hr : regOf o = none) : entered hb ff h o = o :=
+  entered_of_none hb ff h o (by simp [flaggedSink, hr])
+
+theorem regOf_clearFlag_isSome (o : Op) : (regOf (clearFlag o)).isSome = (regOf o).isSome := by
+  cases o with
+  | addPrefix sink p c f => by_cases hp : '/' ∈ p <;> simp [clearFlag, regOf, hp]
+  | _ => simp [clearFlag, regOf]
+
+theorem regOf_entered_isSome (hb ff : Bool) (h : List Op) (o : Op) : (regOf (entered hb ff h o)).isSome = (regOf o).isSome := by
+  cases hf : flaggedSink o with
+  | none => rw [entered_of_none hb ff h o hf]
+  | some y =>
+    cases hc : (flagged hb ff (regs h)).contains y with
+    | true => rw [entered_of_mem hb ff h o y hf hc, regOf_clearFlag_isSome]
+    | false => rw [entered_of_not_mem hb ff h o y hf hc]
+
+/-- the sink that is newly registered for start/stop by `o` after the history `h`: the flagged sink of `o`, unless it is
+registered already -/
+theorem flaggedSink_entered (hb ff : Bool) (h : List Op) (o : Op) :
+    flaggedSink (entered hb ff h o) = (flaggedSink o).filter fun y => !(flagged hb ff (regs h)).contains y := by
+  cases hf : flaggedSink o with
+  | none => rw [entered_of_none hb ff h o hf, hf]; rfl
+  | some y =>
+    cases hc : (flagged hb ff (regs h)).contains y with
+    | true => rw [entered_of_mem hb ff h o y hf hc, flaggedSink_clearFlag]; simp only [Option.filter, hc]; rfl
+    | false => rw [entered_of_not_mem hb ff h o y hf hc, hf]; simp only [Option.filter, hc]; rfl
+
+/-- what `add_rule` does before it starts the new sink; `o'` = the operation as it enters the history -/
+structure RegOut (hb ff : Bool) (H : List Op) (s : State) (o o' : Op) : Prop where
+  inv : Inv hb ff (H ++ effAdd o') (regStep s o).1
+  started : (regStep s o).2.1 = if s.inRun then flaggedSink o' else none
   inRun : (regStep s o).1.inRun = s.inRun
   scripts : (regStep s o).1.scripts = s.scripts
   grow : s.sinks.length ≤ (regStep s o).1.sinks.length ∧ (regStep s o).1.sinks.length ≤ s.sinks.length + 1
@@ -241,44 +286,99 @@ theorem inv_same (hb ff : Bool) (H : List Op) (s : State) (hI : Inv hb ff H s) (
   have : effAdd o = [] := by simp [effAdd, h]
   simpa [this] using hI
 
-theorem regStep_spec (hb ff : Bool) (H : List Op) (s : State) (hI : Inv hb ff H s) (o : Op) : RegOut hb ff H s o := by
+theorem regStep_spec (hb ff : Bool) (H : List Op) (s : State) (hI : Inv hb ff H s) (o : Op) :
+    RegOut hb ff H s o (entered hb ff H o) := by
   cases o with
-  | start => exact ⟨inv_same hb ff H s hI _ rfl, by simp [regStep, flaggedSink, regOf], rfl, rfl, ⟨Nat.le_refl _, Nat.le_succ _⟩, Or.inl rfl, by simp [regOf]⟩
-  | stop => exact ⟨inv_same hb ff H s hI _ rfl, by simp [regStep, flaggedSink, regOf], rfl, rfl, ⟨Nat.le_refl _, Nat.le_succ _⟩, Or.inl rfl, by simp [regOf]⟩
-  | status e => exact ⟨inv_same hb ff H s hI _ rfl, by simp [regStep, flaggedSink, regOf], rfl, rfl, ⟨Nat.le_refl _, Nat.le_succ _⟩, Or.inl rfl, by simp [regOf]⟩
-  | roundTrip cs e => exact ⟨inv_same hb ff H s hI _ rfl, by simp [regStep, flaggedSink, regOf], rfl, rfl, ⟨Nat.le_refl _, Nat.le_succ _⟩, Or.inl rfl, by simp [regOf]⟩
+  | start => rw [regOf_entered_none _ _ _ _ rfl]; exact ⟨inv_same hb ff H s hI _ rfl, by simp [regStep, flaggedSink, regOf], rfl, rfl, ⟨Nat.le_refl _, Nat.le_succ _⟩, Or.inl rfl, by simp [regOf]⟩
+  | stop => rw [regOf_entered_none _ _ _ _ rfl]; exact ⟨inv_same hb ff H s hI _ rfl, by simp [regStep, flaggedSink, regOf], rfl, rfl, ⟨Nat.le_refl _, Nat.le_succ _⟩, Or.inl rfl, by simp [regOf]⟩
+  | status e => rw [regOf_entered_none _ _ _ _ rfl]; exact ⟨inv_same hb ff H s hI _ rfl, by simp [regStep, flaggedSink, regOf], rfl, rfl, ⟨Nat.le_refl _, Nat.le_succ _⟩, Or.inl rfl, by simp [regOf]⟩
+  | roundTrip cs e => rw [regOf_entered_none _ _ _ _ rfl]; exact ⟨inv_same hb ff H s hI _ rfl, by simp [regStep, flaggedSink, regOf], rfl, rfl, ⟨Nat.le_refl _, Nat.le_succ _⟩, Or.inl rfl, by simp [regOf]⟩
   | addBad sink flag =>
+    rw [regOf_entered_none _ _ _ _ rfl]
     exact ⟨inv_same hb ff H s hI _ rfl, by simp [regStep, flaggedSink, regOf], rfl, rfl, ⟨Nat.le_refl _, Nat.le_succ _⟩,
       Or.inr ⟨_, rfl, rfl, rfl⟩, by simp [regOf]⟩
   | addPrefix sink p consume flag =>
     by_cases hp : '/' ∈ p
     · have hreg : regOf (.addPrefix sink p consume flag) = none := by simp [regOf, hp]
       have hst : regStep s (.addPrefix sink p consume flag) = (s, none, .raised "TypeError") := by simp [regStep, hp]
-      rw [show (RegOut hb ff H s (.addPrefix sink p consume flag)) = _ from rfl]
+      rw [regOf_entered_none _ _ _ _ hreg]
       refine ⟨by rw [hst]; exact inv_same hb ff H s hI _ hreg, by simp [hst, flaggedSink, hreg], by rw [hst], by rw [hst],
         by rw [hst]; exact ⟨Nat.le_refl _, Nat.le_succ _⟩, Or.inr ⟨_, by rw [hst], hreg, by rw [hst]⟩, by simp [hreg]⟩
-    · have hreg : regOf (.addPrefix sink p consume flag) = some (.pfx sink p consume flag) := by simp [regOf, hp]
-      have hH : regs (H ++ effAdd (.addPrefix sink p consume flag)) = regs H ++ [.pfx sink p consume flag] := by
-        simp [effAdd_regs, hreg]
-      have hrun := inRun_effAdd H (.addPrefix sink p consume flag)
-      cases flag
-      · refine ⟨⟨?_, fun seg => ?_, fun t => ?_, ?_, ?_⟩, ?_, ?_, ?_, ?_, Or.inl ?_, fun _ => ?_⟩ <;>
-          simp [regStep, hp, hH, hrun, prefixRule_snoc, idRule_snoc, flagged_snoc, dictGet_set, hI.prefixes, hI.ids,
-            hI.sinks, hI.inRun, hI.fallback, flaggedSink, hreg]
-      · refine ⟨⟨?_, fun seg => ?_, fun t => ?_, ?_, ?_⟩, ?_, ?_, ?_, ?_, Or.inl ?_, fun _ => ?_⟩ <;>
-          simp [regStep, hp, hH, hrun, prefixRule_snoc, idRule_snoc, flagged_snoc, dictGet_set, hI.prefixes, hI.ids,
-            hI.sinks, hI.inRun, hI.fallback, flaggedSink, hreg]
+    · have hs : s.sinks.contains sink = (flagged hb ff (regs H)).contains sink := by rw [hI.sinks]
+      have hreg : ∀ fl, regOf (.addPrefix sink p consume fl) = some (.pfx sink p consume fl) := fun fl => by simp [regOf, hp]
+      have hH : ∀ fl, regs (H ++ effAdd (.addPrefix sink p consume fl)) = regs H ++ [.pfx sink p consume fl] := fun fl => by
+        simp [effAdd_regs, hreg fl]
+      -- the rule is added, the registration list stays
+      have A : (flag && !s.sinks.contains sink) = false →
+          RegOut hb ff H s (.addPrefix sink p consume flag) (.addPrefix sink p consume false) := by
+        intro hcond
+        have hst : regStep s (.addPrefix sink p consume flag)
+            = ({ s with prefixes := dictSet s.prefixes p (sink, consume) }, none, .ok) := by
+          simp only [regStep]; rw [if_neg (by simpa using hp)]; simp only [hcond]; rfl
+        have hrun := inRun_effAdd H (.addPrefix sink p consume false)
+        refine ⟨⟨?_, fun seg => ?_, fun t => ?_, ?_, ?_⟩, ?_, ?_, ?_, ⟨?_, ?_⟩, Or.inl ?_, fun _ => ?_⟩ <;> rw [hst] <;>
+          simp [hI.fallback, hH, hrun, prefixRule_snoc, idRule_snoc, flagged_snoc, dictGet_set, hI.prefixes, hI.ids, hI.sinks,
+            hI.inRun, flaggedSink, hreg]
+      -- the rule is added and the sink newly registered
+      have B : flag = true → s.sinks.contains sink = false →
+          RegOut hb ff H s (.addPrefix sink p consume flag) (.addPrefix sink p consume true) := by
+        intro hfl hc
+        subst hfl
+        have hst : regStep s (.addPrefix sink p consume true)
+            = ({ s with prefixes := dictSet s.prefixes p (sink, consume), sinks := s.sinks ++ [sink] },
+               (if s.inRun then some sink else none), .ok) := by
+          simp only [regStep]; rw [if_neg (by simpa using hp)]; simp only [hc]; rfl
+        have hrun := inRun_effAdd H (.addPrefix sink p consume true)
+        refine ⟨⟨?_, fun seg => ?_, fun t => ?_, ?_, ?_⟩, ?_, ?_, ?_, ⟨?_, ?_⟩, Or.inl ?_, fun _ => ?_⟩ <;> rw [hst] <;>
+          simp [hI.fallback, hH, hrun, prefixRule_snoc, idRule_snoc, flagged_snoc, dictGet_set, hI.prefixes, hI.ids, hI.sinks,
+            hI.inRun, flaggedSink, hreg]
+      cases flag with
+      | false =>
+        rw [entered_of_none _ _ _ _ (by simp [flaggedSink, regOf, hp])]
+        exact A (by simp)
+      | true =>
+        have hf : flaggedSink (.addPrefix sink p consume true) = some sink := by simp [flaggedSink, regOf, hp]
+        cases hc : (flagged hb ff (regs H)).contains sink with
+        | true =>
+          rw [entered_of_mem _ _ _ _ _ hf hc]
+          exact A (by rw [hs, hc]; rfl)
+        | false =>
+          rw [entered_of_not_mem _ _ _ _ _ hf hc]
+          exact B rfl (by rw [hs, hc])
   | addId sink t flag =>
-    have hreg : regOf (.addId sink t flag) = some (.tid sink t flag) := by simp [regOf]
-    have hH : regs (H ++ effAdd (.addId sink t flag)) = regs H ++ [.tid sink t flag] := by simp [effAdd_regs, hreg]
-    have hrun := inRun_effAdd H (.addId sink t flag)
-    cases flag
-    · refine ⟨⟨hI.fallback, fun seg => ?_, fun t' => ?_, ?_, ?_⟩, ?_, ?_, ?_, ?_, Or.inl ?_, fun _ => ?_⟩ <;>
-        simp [regStep, hH, hrun, prefixRule_snoc, idRule_snoc, flagged_snoc, dictGet_set, hI.prefixes, hI.ids,
-          hI.sinks, hI.inRun, flaggedSink, hreg]
-    · refine ⟨⟨hI.fallback, fun seg => ?_, fun t' => ?_, ?_, ?_⟩, ?_, ?_, ?_, ?_, Or.inl ?_, fun _ => ?_⟩ <;>
-        simp [regStep, hH, hrun, prefixRule_snoc, idRule_snoc, flagged_snoc, dictGet_set, hI.prefixes, hI.ids,
-          hI.sinks, hI.inRun, flaggedSink, hreg]
+    have hs : s.sinks.contains sink = (flagged hb ff (regs H)).contains sink := by rw [hI.sinks]
+    have hreg : ∀ fl, regOf (.addId sink t fl) = some (.tid sink t fl) := fun fl => by simp [regOf]
+    have hH : ∀ fl, regs (H ++ effAdd (.addId sink t fl)) = regs H ++ [.tid sink t fl] := fun fl => by
+      simp [effAdd_regs, hreg fl]
+    have A : (flag && !s.sinks.contains sink) = false →
+        RegOut hb ff H s (.addId sink t flag) (.addId sink t false) := by
+      intro hcond
+      have hst : regStep s (.addId sink t flag) = ({ s with ids := dictSet s.ids t sink }, none, .ok) := by
+        simp only [regStep, hcond]; rfl
+      have hrun := inRun_effAdd H (.addId sink t false)
+      refine ⟨⟨?_, fun seg => ?_, fun t' => ?_, ?_, ?_⟩, ?_, ?_, ?_, ⟨?_, ?_⟩, Or.inl ?_, fun _ => ?_⟩ <;> rw [hst] <;>
+        simp [hI.fallback, hH, hrun, prefixRule_snoc, idRule_snoc, flagged_snoc, dictGet_set, hI.prefixes, hI.ids, hI.sinks,
+          hI.inRun, flaggedSink, hreg]
+    have B : flag = true → s.sinks.contains sink = false →
+        RegOut hb ff H s (.addId sink t flag) (.addId sink t true) := by
+      intro hfl hc
+      subst hfl
+      have hst : regStep s (.addId sink t true)
+          = ({ s with ids := dictSet s.ids t sink, sinks := s.sinks ++ [sink] }, (if s.inRun then some sink else none), .ok) := by
+        simp only [regStep, hc]; rfl
+      have hrun := inRun_effAdd H (.addId sink t true)
+      refine ⟨⟨?_, fun seg => ?_, fun t' => ?_, ?_, ?_⟩, ?_, ?_, ?_, ⟨?_, ?_⟩, Or.inl ?_, fun _ => ?_⟩ <;> rw [hst] <;>
+        simp [hI.fallback, hH, hrun, prefixRule_snoc, idRule_snoc, flagged_snoc, dictGet_set, hI.prefixes, hI.ids, hI.sinks,
+          hI.inRun, flaggedSink, hreg]
+    cases flag with
+    | false =>
+      rw [entered_of_none _ _ _ _ (by simp [flaggedSink, regOf])]
+      exact A (by simp)
+    | true =>
+      have hf : flaggedSink (.addId sink t true) = some sink := by simp [flaggedSink, regOf]
+      cases hc : (flagged hb ff (regs H)).contains sink with
+      | true => rw [entered_of_mem _ _ _ _ _ hf hc]; exact A (by rw [hs, hc]; rfl)
+      | false => rw [entered_of_not_mem _ _ _ _ _ hf hc]; exact B rfl (by rw [hs, hc])
 
 /-! ## a sink's method: the script entry against the reading of the history -/
 theorem inv_scripts (hb ff : Bool) (H : List Op) (s : State) (hI : Inv hb ff H s) (scs : List Script) :
@@ -308,7 +408,7 @@ theorem runActs_walk (hb ff : Bool) (m : Mode) (i : Nat) : ∀ (acts : List Act)
   | .add o :: as, H, s, hI => by
     have R := regStep_spec hb ff H s hI o
     rcases R.res with hok | ⟨x, hx, hreg, hst⟩
-    · obtain ⟨H', h1, h2, h3, h4, h5, h6⟩ := runActs_walk hb ff m i as (H ++ effAdd o) (regStep s o).1 R.inv
+    · obtain ⟨H', h1, h2, h3, h4, h5, h6⟩ := runActs_walk hb ff m i as (H ++ effAdd (entered hb ff H o)) (regStep s o).1 R.inv
       refine ⟨H', ?_, ?_, ?_, ?_, ?_, ?_⟩
       · simpa [runActs, hok] using h1
       · simpa [runActs, hok, R.inRun] using h2
@@ -328,7 +428,7 @@ theorem runActs_walk (hb ff : Bool) (m : Mode) (i : Nat) : ∀ (acts : List Act)
           | true =>
             rw [hrun] at h6
             simp only [if_true]
-            cases hf : flaggedSink o with
+            cases hf : flaggedSink (entered hb ff H o) with
             | none => simp only [List.nil_append]; exact h6 rest
             | some y => simp only [List.cons_append, List.nil_append, walk, if_true]; exact h6 rest
         | some e =>
@@ -339,7 +439,7 @@ theorem runActs_walk (hb ff : Bool) (m : Mode) (i : Nat) : ∀ (acts : List Act)
           | true =>
             rw [hrun] at h6
             simp only [if_true]
-            cases hf : flaggedSink o with
+            cases hf : flaggedSink (entered hb ff H o) with
             | none => simp only [List.nil_append]; exact h6
             | some y => simp only [List.cons_append, List.nil_append, walk, if_true]; exact h6
     · refine ⟨H, ?_, ?_, ?_, ?_, ?_, ?_⟩
@@ -348,7 +448,7 @@ theorem runActs_walk (hb ff : Bool) (m : Mode) (i : Nat) : ∀ (acts : List Act)
       · simp [runActs, hx, hst]
       · simp [runActs, hx, hst]
       · simp [runActs, hx, hst]
-      · simp [Walked, runActs, hx, walk, effAdd_none o hreg, flaggedSink_none o hreg]
+      · simp [Walked, runActs, hx, walk, regOf_entered_none hb ff H o hreg, effAdd_none o hreg, flaggedSink_none o hreg]
 
 theorem actsLeft_pop : ∀ (scs : List Script) (x : Nat) (k : Kind),
     actsLeft (popScript scs x k).1 + (popScript scs x k).2.length = actsLeft scs
@@ -435,7 +535,9 @@ theorem add_ok (hb ff : Bool) (H : List Op) (s : State) (hI : Inv hb ff H s) (o 
     (hstep : step s o = addStep s o) (hop : ∀ seg res, opOk hb ff H o seg res = addOk hb ff H o seg res) :
     ∃ H', opOk hb ff H o (step s o).2.1 (step s o).2.2 = some H' ∧ Inv hb ff H' (step s o).1 := by
   have R := regStep_spec hb ff H s hI o
-  have heff : effAdd o = [o] := by simp [effAdd, hreg]
+  have hsome' : (regOf (entered hb ff H o)).isSome = true := by rw [regOf_entered_isSome]; simp [hreg]
+  obtain ⟨r', hreg'⟩ := Option.isSome_iff_exists.mp hsome'
+  have heff : effAdd (entered hb ff H o) = [entered hb ff H o] := by simp [effAdd, hreg']
   have hok := R.resOk (by simp [hreg])
   have hinv := R.inv
   rw [heff] at hinv
@@ -443,13 +545,13 @@ theorem add_ok (hb ff : Bool) (H : List Op) (s : State) (hI : Inv hb ff H s) (o 
   simp only [addStep, addOk, hok, R.started, ← hI.inRun]
   cases hrun : s.inRun with
   | false =>
-    exact ⟨H ++ [o], by cases flaggedSink o <;> simp [walk, allDone, closes], by simpa using hinv⟩
+    exact ⟨H ++ [entered hb ff H o], by cases flaggedSink (entered hb ff H o) <;> simp [walk, allDone, closes], by simpa using hinv⟩
   | true =>
-    cases hf : flaggedSink o with
-    | none => exact ⟨H ++ [o], by simp [walk, allDone, closes], by simpa using hinv⟩
+    cases hf : flaggedSink (entered hb ff H o) with
+    | none => exact ⟨H ++ [entered hb ff H o], by simp [walk, allDone, closes], by simpa using hinv⟩
     | some y =>
       simp only [if_true]
-      obtain ⟨H', h1, h2, h3, h4, h5⟩ := callTop_walk hb ff (.fixed [(y, .start)]) 0 (H ++ [o]) (regStep s o).1 hinv y .start false
+      obtain ⟨H', h1, h2, h3, h4, h5⟩ := callTop_walk hb ff (.fixed [(y, .start)]) 0 (H ++ [entered hb ff H o]) (regStep s o).1 hinv y .start false
         (by simp [nextTop])
       rw [R.inRun, hrun] at h5
       refine ⟨H', ?_, h1⟩
@@ -683,7 +785,7 @@ theorem walk_prefix (hb ff ρ : Bool) (m : Mode) : ∀ (seg : List Item) (i : Na
         simp only [walk] at hw
         split at hw
         · obtain ⟨X, hX⟩ := ih _ _ _ _ _ _ hw
-          exact ⟨effAdd o ++ X, by rw [hX, List.append_assoc]⟩
+          exact ⟨effAdd (entered hb ff h o) ++ X, by rw [hX, List.append_assoc]⟩
         · simp at hw
       | exc x =>
         cases seg with
@@ -734,7 +836,7 @@ theorem walk_inv_none (hb ff ρ : Bool) (m : Mode) (seg : List Item) (i : Nat) (
     (hw : walk hb ff ρ m i h none st seg = some (none, h')) :
     (seg = [] ∧ allDone hb ff m h i = true ∧ h' = h)
     ∨ (∃ o r, seg = .radd o :: r ∧ st = true
-        ∧ walk hb ff ρ m i (h ++ effAdd o) (if ρ then flaggedSink o else none) st r = some (none, h'))
+        ∧ walk hb ff ρ m i (h ++ effAdd (entered hb ff h o)) (if ρ then flaggedSink (entered hb ff h o) else none) st r = some (none, h'))
     ∨ (∃ x ev r, seg = .del x ev false :: r ∧ nextTop hb ff m h i = some (x, ev)
         ∧ walk hb ff ρ m (i + 1) h none true r = some (none, h')) := by
   cases seg with
@@ -821,7 +923,7 @@ theorem walk_alt_start (hb ff : Bool) : ∀ (seg : List Item) (i : Nat) (h : Lis
     · simp at hs
     · obtain ⟨rfl, rfl⟩ := List.cons.inj hs
       simp only [Bool.false_eq_true, if_false] at hw'
-      have := ih i (h ++ effAdd o) st (L ++ [.radd o]) h' hw' hn
+      have := ih i (h ++ effAdd (entered hb ff h o)) st (L ++ [.radd o]) h' hw' hn
         (by rw [F_effAdd]; simp only [List.length_append]; omega)
         (fun z => by
           rw [stOf_snoc_other z L _ (by simp [ctlOf]), F_effAdd, List.take_append_of_le_length hi]
@@ -891,17 +993,17 @@ theorem walk_alt_stop (hb ff : Bool) : ∀ (seg : List Item) (i : Nat) (h : List
       · obtain ⟨rfl, rfl⟩ := List.cons.inj hs
         simp only [if_true] at hw'
         obtain ⟨X, hX⟩ := walk_prefix _ _ _ _ _ _ _ _ _ _ _ hw'
-        have hnh : (F hb ff (h ++ effAdd o)).Nodup := by
+        have hnh : (F hb ff (h ++ effAdd (entered hb ff h o))).Nodup := by
           rw [hX, F_append] at hn; exact (List.nodup_append.mp hn).1
         rw [F_effAdd] at hnh
-        have := ih i (h ++ effAdd o) (flaggedSink o) st (L ++ [.radd o]) h' hw' hn
+        have := ih i (h ++ effAdd (entered hb ff h o)) (flaggedSink (entered hb ff h o)) st (L ++ [.radd o]) h' hw' hn
           (by rw [F_effAdd]; simp only [List.length_append]; omega)
           (fun y hy => by
             rw [F_effAdd, hy, List.drop_append_of_le_length hi]
             simp)
           (fun z => by
             rw [stOf_snoc_other z L _ (by simp [ctlOf]), F_effAdd, List.drop_append_of_le_length hi, hinv z]
-            cases hf : flaggedSink o with
+            cases hf : flaggedSink (entered hb ff h o) with
             | none => simp [pend_none]
             | some y =>
               rw [hf] at hnh
@@ -981,11 +1083,11 @@ theorem walk_alt_fixed (hb ff ρ : Bool) (ds : List (Nat × SinkEv)) (hlen : ds.
       · obtain ⟨rfl, rfl⟩ := List.cons.inj hs
         have hi := hst hstt
         obtain ⟨X, hX⟩ := walk_prefix _ _ _ _ _ _ _ _ _ _ _ hw'
-        have hnh : (F hb ff (h ++ effAdd o)).Nodup := by
+        have hnh : (F hb ff (h ++ effAdd (entered hb ff h o))).Nodup := by
           rw [hX, F_append] at hn; exact (List.nodup_append.mp hn).1
         rw [F_effAdd] at hnh
         have hdrop : ds.drop i = [] := by rw [hi]; simp
-        have := ih i (h ++ effAdd o) (if ρ then flaggedSink o else none) st (L ++ [.radd o]) h' hw' hn hst (fun _ => hstt)
+        have := ih i (h ++ effAdd (entered hb ff h o)) (if ρ then flaggedSink (entered hb ff h o) else none) st (L ++ [.radd o]) h' hw' hn hst (fun _ => hstt)
           (fun y hy => by
             cases hρ : ρ with
             | false => simp [hρ] at hy
@@ -999,7 +1101,7 @@ theorem walk_alt_fixed (hb ff ρ : Bool) (ds : List (Nat × SinkEv)) (hlen : ds.
             cases hρ : ρ with
             | false => simp
             | true =>
-              cases hf : flaggedSink o with
+              cases hf : flaggedSink (entered hb ff h o) with
               | none => simp [pend_none]
               | some y =>
                 rw [hf] at hnh
@@ -1149,7 +1251,9 @@ theorem add_alt (hb ff : Bool) (H : List Op) (o : Op) (seg : List Item) (res : R
     (r : Reg) (hreg : regOf o = some r) (hop : addOk hb ff H o seg res = some H') (hexc : hasExc seg = false)
     (hn : (F hb ff H').Nodup) (hQ : Q hb ff H L) :
     Q hb ff H' (L ++ seg) ∧ inRun H' = runAfter o (inRun H) := by
-  have hadd : inRun (H ++ [o]) = inRun H := inRun_add H o r hreg
+  have hsome' : (regOf (entered hb ff H o)).isSome = true := by rw [regOf_entered_isSome]; simp [hreg]
+  obtain ⟨r', hreg'⟩ := Option.isSome_iff_exists.mp hsome'
+  have hadd : inRun (H ++ [entered hb ff H o]) = inRun H := inRun_add H (entered hb ff H o) r' hreg'
   have hmatch : runAfter o (inRun H) = inRun H := by
     cases o <;> simp [regOf] at hreg <;> rfl
   rw [hmatch]
@@ -1159,27 +1263,27 @@ theorem add_alt (hb ff : Bool) (H : List Op) (o : Op) (seg : List Item) (res : R
   have hir := (walk_inRun _ _ _ _ _ _ _ _ _ _ hw).trans hadd
   refine ⟨fun x => ?_, hir⟩
   obtain ⟨X, hX⟩ := walk_prefix _ _ _ _ _ _ _ _ _ _ _ hw
-  have hFo : F hb ff (H ++ [o]) = F hb ff H ++ (flaggedSink o).toList := by
-    have := F_effAdd hb ff H o
-    simpa [effAdd, hreg] using this
-  have hnh : (F hb ff H ++ (flaggedSink o).toList).Nodup := by
+  have hFo : F hb ff (H ++ [entered hb ff H o]) = F hb ff H ++ (flaggedSink (entered hb ff H o)).toList := by
+    have := F_effAdd hb ff H (entered hb ff H o)
+    simpa [effAdd, hreg'] using this
+  have hnh : (F hb ff H ++ (flaggedSink (entered hb ff H o)).toList).Nodup := by
     rw [hX, F_append, hFo] at hn; exact (List.nodup_append.mp hn).1
   have := walk_alt_fixed hb ff (inRun H)
-    (match flaggedSink o with | some y => if inRun H then [(y, .start)] else [] | none => [])
-    (by cases flaggedSink o <;> simp <;> split <;> simp)
+    (match flaggedSink (entered hb ff H o) with | some y => if inRun H then [(y, .start)] else [] | none => [])
+    (by cases flaggedSink (entered hb ff H o) <;> simp <;> split <;> simp)
     (by
       intro p hp
-      cases hf : flaggedSink o with
+      cases hf : flaggedSink (entered hb ff H o) with
       | none => simp [hf] at hp
       | some y =>
         simp only [hf] at hp
         split at hp
         · simp only [List.mem_singleton] at hp; subst hp; simp
         · simp at hp)
-    seg 0 (H ++ [o]) none false L h' hw hn (by simp) (by simp) (by simp)
+    seg 0 (H ++ [entered hb ff H o]) none false L h' hw hn (by simp) (by simp) (by simp)
     (by
       intro y hy
-      cases hf : flaggedSink o with
+      cases hf : flaggedSink (entered hb ff H o) with
       | none => simp [hf, startsIn] at hy
       | some z =>
         simp only [hf, List.drop_zero] at hy
@@ -1194,7 +1298,7 @@ theorem add_alt (hb ff : Bool) (H : List Op) (o : Op) (seg : List Item) (res : R
       cases hr : inRun H with
       | false => simp
       | true =>
-        cases hf : flaggedSink o with
+        cases hf : flaggedSink (entered hb ff H o) with
         | none => simp [startsIn, pend_none]
         | some y =>
           rw [hf] at hnh
@@ -1335,11 +1439,11 @@ theorem opOk_prefix (hb ff : Bool) (H : List Op) (o : Op) (seg : List Item) (res
     | some r =>
       simp only [hreg, addOk] at hop
       obtain ⟨X, hX⟩ := closes_prefix _ _ _ _ _ _ _ _ _ _ hop
-      exact ⟨.addPrefix sink p consume flag :: X, by rw [hX]; simp⟩
+      exact ⟨entered hb ff H (.addPrefix sink p consume flag) :: X, by rw [hX]; simp⟩
   | addId sink t flag =>
     simp only [opOk, regOf, addOk] at hop
     obtain ⟨X, hX⟩ := closes_prefix _ _ _ _ _ _ _ _ _ _ hop
-    exact ⟨.addId sink t flag :: X, by rw [hX]; simp⟩
+    exact ⟨entered hb ff H (.addId sink t flag) :: X, by rw [hX]; simp⟩
 
 theorem finalHist_prefix (hb ff : Bool) : ∀ (os : List Op) (H : List Op) (segs : List (List Item)) (rs : List Res) (Hf : List Op),
     finalHist hb ff H os segs rs = some Hf → ∃ X, Hf = H ++ X
@@ -1361,6 +1465,150 @@ theorem finalHist_prefix (hb ff : Bool) : ∀ (os : List Op) (H : List Op) (segs
             obtain ⟨X, hX⟩ := opOk_prefix hb ff H o seg r H' hop
             obtain ⟨Y, hY⟩ := finalHist_prefix hb ff os H' segs rs Hf h
             exact ⟨X ++ Y, by rw [hY, hX, List.append_assoc]⟩
+
+/-! ### a sink object is registered for start/stop at most once -/
+theorem F_entered_nodup (hb ff : Bool) (h : List Op) (o : Op) (hn : (F hb ff h).Nodup) :
+    (F hb ff (h ++ effAdd (entered hb ff h o))).Nodup := by
+  cases hf : flaggedSink o with
+  | none => rw [entered_of_none hb ff h o hf, F_effAdd, hf]; simpa using hn
+  | some y =>
+    cases hc : (flagged hb ff (regs h)).contains y with
+    | true => rw [entered_of_mem hb ff h o y hf hc, F_effAdd, flaggedSink_clearFlag]; simpa using hn
+    | false =>
+      rw [entered_of_not_mem hb ff h o y hf hc, F_effAdd, hf]
+      have hnm : y ∉ F hb ff h := by
+        intro hm
+        have : (flagged hb ff (regs h)).contains y = true := by simpa using hm
+        rw [hc] at this; exact Bool.noConfusion this
+      simp only [Option.toList_some]
+      exact List.nodup_append.mpr ⟨hn, by simp, fun a ha b hb => by
+        simp only [List.mem_singleton] at hb; subst hb; intro hab; subst hab; exact hnm ha⟩
+
+theorem walk_nodup (hb ff ρ : Bool) (m : Mode) : ∀ (seg : List Item) (i : Nat) (h : List Op) (pend : Option Nat) (st : Bool)
+    (e : Option String) (h' : List Op), walk hb ff ρ m i h pend st seg = some (e, h') → (F hb ff h).Nodup →
+    (F hb ff h').Nodup := by
+  intro seg
+  induction seg with
+  | nil =>
+    intro i h pend st e h' hw hn
+    cases pend with
+    | some y => simp [walk] at hw
+    | none =>
+      simp only [walk] at hw
+      split at hw
+      · simp only [Option.some.injEq, Prod.mk.injEq] at hw; rw [← hw.2]; exact hn
+      · simp at hw
+  | cons it seg ih =>
+    intro i h pend st e h' hw hn
+    cases pend with
+    | some y =>
+      cases it with
+      | del x ev n =>
+        cases ev <;> cases n <;> simp only [walk] at hw <;> try (simp at hw)
+        exact ih _ _ _ _ _ _ hw.2 hn
+      | radd o => simp [walk] at hw
+      | exc x => simp [walk] at hw
+    | none =>
+      cases it with
+      | del x ev n =>
+        cases n with
+        | true => simp [walk] at hw
+        | false =>
+          simp only [walk] at hw
+          split at hw
+          · exact ih _ _ _ _ _ _ hw hn
+          · simp at hw
+      | radd o =>
+        simp only [walk] at hw
+        split at hw
+        · exact ih _ _ _ _ _ _ hw (F_entered_nodup hb ff h o hn)
+        · simp at hw
+      | exc x =>
+        cases seg with
+        | nil =>
+          simp only [walk] at hw
+          split at hw
+          · simp only [Option.some.injEq, Prod.mk.injEq] at hw; rw [← hw.2]; exact hn
+          · simp at hw
+        | cons a b => simp [walk] at hw
+
+theorem closes_nodup (hb ff ρ : Bool) (m : Mode) (i : Nat) (h : List Op) (seg : List Item) (res : Res) (comp H' : List Op)
+    (hcomp : comp = [] ∨ comp = [.start] ∨ comp = [.stop])
+    (hc : closes res (walk hb ff ρ m i h none false seg) comp = some H') (hn : (F hb ff h).Nodup) : (F hb ff H').Nodup := by
+  cases hw : walk hb ff ρ m i h none false seg with
+  | none => simp [closes, hw] at hc
+  | some p =>
+    obtain ⟨e, h'⟩ := p
+    have hn' := walk_nodup _ _ _ _ _ _ _ _ _ _ _ hw hn
+    cases e with
+    | some x =>
+      simp only [closes, hw] at hc
+      split at hc
+      · simp only [Option.some.injEq] at hc; rw [← hc]; exact hn'
+      · simp at hc
+    | none =>
+      simp only [closes, hw] at hc
+      split at hc
+      · simp only [Option.some.injEq] at hc
+        rw [← hc]
+        rcases hcomp with rfl | rfl | rfl
+        · simpa using hn'
+        · rw [F_ctl hb ff h' .start (Or.inl rfl)]; exact hn'
+        · rw [F_ctl hb ff h' .stop (Or.inr rfl)]; exact hn'
+      · simp at hc
+
+theorem opOk_nodup (hb ff : Bool) (H : List Op) (o : Op) (seg : List Item) (res : Res) (H' : List Op)
+    (hop : opOk hb ff H o seg res = some H') (hn : (F hb ff H).Nodup) : (F hb ff H').Nodup := by
+  have hsame : ∀ {c : Bool}, (if c then some H else none) = some H' → (F hb ff H').Nodup := by
+    intro c hc; split at hc
+    · simp only [Option.some.injEq] at hc; rw [← hc]; exact hn
+    · simp at hc
+  have hadd : ∀ o', (regOf o').isSome = true → addOk hb ff H o' seg res = some H' → (F hb ff H').Nodup := by
+    intro o' hs ha
+    simp only [addOk] at ha
+    have hs' : (regOf (entered hb ff H o')).isSome = true := by rw [regOf_entered_isSome]; exact hs
+    obtain ⟨r', hr'⟩ := Option.isSome_iff_exists.mp hs'
+    have heff : effAdd (entered hb ff H o') = [entered hb ff H o'] := by simp [effAdd, hr']
+    have hn1 := F_entered_nodup hb ff H o' hn
+    rw [heff] at hn1
+    exact closes_nodup _ _ _ _ _ _ _ _ _ _ (Or.inl rfl) ha hn1
+  cases o with
+  | start => exact closes_nodup _ _ _ _ _ _ _ _ _ _ (Or.inr (Or.inl rfl)) (by simpa [opOk] using hop) hn
+  | stop => exact closes_nodup _ _ _ _ _ _ _ _ _ _ (Or.inr (Or.inr rfl)) (by simpa [opOk] using hop) hn
+  | status e =>
+    simp only [opOk] at hop
+    cases hd : destination hb (regs H) e with
+    | none => simp only [hd] at hop; exact hsame hop
+    | some d => obtain ⟨sink, e'⟩ := d; simp only [hd] at hop; exact closes_nodup _ _ _ _ _ _ _ _ _ _ (Or.inl rfl) hop hn
+  | roundTrip codes e => simp only [opOk] at hop; exact hsame hop
+  | addBad sink flag => simp only [opOk, regOf] at hop; exact hsame hop
+  | addPrefix sink p consume flag =>
+    simp only [opOk] at hop
+    cases hreg : regOf (.addPrefix sink p consume flag) with
+    | none => simp only [hreg] at hop; exact hsame hop
+    | some r => simp only [hreg] at hop; exact hadd _ (by simp [hreg]) hop
+  | addId sink t flag =>
+    simp only [opOk, regOf] at hop
+    exact hadd _ (by simp [regOf]) hop
+
+theorem finalHist_nodup (hb ff : Bool) : ∀ (os : List Op) (H : List Op) (segs : List (List Item)) (rs : List Res) (Hf : List Op),
+    finalHist hb ff H os segs rs = some Hf → (F hb ff H).Nodup → (F hb ff Hf).Nodup
+  | [], H, segs, rs, Hf, h, hn => by
+      cases segs <;> cases rs <;> simp [finalHist] at h
+      rw [← h]; exact hn
+  | o :: os, H, segs, rs, Hf, h, hn => by
+      cases segs with
+      | nil => simp [finalHist] at h
+      | cons seg segs =>
+        cases rs with
+        | nil => simp [finalHist] at h
+        | cons r rs =>
+          simp only [finalHist] at h
+          cases hop : opOk hb ff H o seg r with
+          | none => simp [hop] at h
+          | some H' =>
+            simp only [hop] at h
+            exact finalHist_nodup hb ff os H' segs rs Hf h (opOk_nodup hb ff H o seg r H' hop hn)
 
 theorem hist_alt (hb ff : Bool) : ∀ (os : List Op) (H : List Op) (segs : List (List Item)) (rs : List Res) (L : List Item)
     (Hf : List Op), finalHist hb ff H os segs rs = some Hf → segs.any hasExc = false →
@@ -1398,7 +1646,8 @@ theorem hist_alt (hb ff : Bool) : ∀ (os : List Op) (H : List Op) (segs : List 
             simpa [List.append_assoc] using this
 
 /-- **C18 (alternation)**: in *any* observed history that passes the reading of the property (`historyOk`) and in
-which no sink raises, runs do not nest and no sink is registered twice for start/stop, every sink sees
+which no sink raises and runs do not nest - whatever the rule set: one sink object may serve several rules and be the
+fallback as well, it is registered for start/stop once (`finalHist_nodup`) -, every sink object sees
 `startTestRun` and `stopTestRun` strictly alternating, beginning with a start — so at most one start per run, never a
 second start without a stop in between (also for a sink registered re-entrantly while the start dispatch is under
 way), never a stop without a start; and at the end of every operation the running sinks are exactly the registered
@@ -1412,10 +1661,13 @@ theorem C18_alternate (i : Input) (t : Trace) : cAlternate i t = true := by
     cases hf : finalHist i.hasFallback i.fbFlag [] i.ops t.segments t.results with
     | none => simp [hf] at hfin
     | some Hf =>
-      simp only [hf, decide_eq_true_eq] at hfin
+      have hn0 : (F i.hasFallback i.fbFlag []).Nodup := by
+        simp only [F, flagged, regs, List.filterMap_nil, List.append_nil]
+        split <;> simp
+      have hfin' := finalHist_nodup i.hasFallback i.fbFlag i.ops [] t.segments t.results Hf hf hn0
       have hQ0 : Q i.hasFallback i.fbFlag [] [] := by
         intro x; simp [stOf, ctlOf, auto, inRun]
-      have := hist_alt i.hasFallback i.fbFlag i.ops [] t.segments t.results [] Hf hf hexc (by simpa [inRun] using hwf) hfin hQ0
+      have := hist_alt i.hasFallback i.fbFlag i.ops [] t.segments t.results [] Hf hf hexc (by simpa [inRun] using hwf) hfin' hQ0
       simp only [List.all_eq_true]
       intro x _
       rw [alternates_iff]
@@ -1670,6 +1922,19 @@ theorem C18_sinks_grow (hb ff : Bool) (H : List Op) (s : State) (hI : Inv hb ff 
   obtain ⟨X, hX⟩ := opOk_prefix hb ff H o _ _ H' hop
   exact ⟨X.filterMap flaggedSink, by rw [hI'.sinks, hI.sinks, hX]; exact F_append hb ff H X⟩
 
+/-- **a sink object is registered for start/stop at most once**: from the constructor on (`init`: the fallback, if it is
+registered) every operation - whatever rules it adds, by the driver or re-entrantly, for new sinks, for sinks that serve
+another rule already, for the fallback - leaves `_sinks` free of duplicates; with `C18_dispatch_exactly_once` (one call
+per entry of `_sinks`): one `startTestRun` and one `stopTestRun` per sink OBJECT and run -/
+theorem C18_registered_once (hb ff : Bool) (H : List Op) (s : State) (hI : Inv hb ff H s) (hn : s.sinks.Nodup) (o : Op) :
+    (step s o).1.sinks.Nodup := by
+  obtain ⟨H', hop, hI'⟩ := step_ok hb ff H s hI o
+  rw [hI'.sinks]
+  exact opOk_nodup hb ff H o _ _ H' hop (by show (flagged hb ff (regs H)).Nodup; rw [← hI.sinks]; exact hn)
+
+theorem C18_registered_once_init (hb ff : Bool) : (init hb ff).sinks.Nodup := by
+  cases hb <;> cases ff <;> simp [init]
+
 /-! ## non-vacuity -/
 private def ev1 (tid : Option Nat) (rc : Option String) : Event :=
   { testId := tid, status := some .success, tags := none, runnable := true, fileName := none, fileBytes := none,
@@ -1736,5 +2001,14 @@ theorem C18_src_add_rule (s : State) (o : Op) (h : RouterSrc.isAdd o = true) :
   have h1 : Generated.RouterSrc.addRule = RouterSrc.refAddRule := by decide
   have h2 : Generated.RouterSrc.policies = RouterSrc.refPolicies := by decide
   rw [h1, h2]; exact RouterSrc.aInterp_ref s o h
+
+/-- **`__init__` is the code's**: the router starts without rules, not in a run, and with the fallback registered for
+start/stop iff there is one (`is not None` - whatever the truth value of the sink object) and `do_start_stop_run`: the
+model's `init` -/
+theorem C18_src_init (hb ff : Bool) :
+    RouterSrc.iInterp hb ff Generated.RouterSrc.init (none, none, none, none, none) = some (init hb ff) := by
+  have h : Generated.RouterSrc.init = RouterSrc.refInit := by decide
+  rw [h]
+  cases hb <;> cases ff <;> rfl
 
 end TTV.Props.C18
